@@ -89,6 +89,27 @@ def gen_cases(run, thorough):
     for q in (0, 1):
         for kind in "rt":
             cases.append("C %s %d 30 0 %s:%d:%d B" % (rng.choice("RF"), q, kind, (1 << 24) + 1 + rng.randrange(0, 5), rng.randrange(1, 1000)))
+    # capacities around the size of the stored stream, for incompressible inputs whose length straddles
+    # every threshold of MakeUncompressedStream (header nibbles at 2^16 and 2^20, chunking at 2^24):
+    # below the stored size the call must fail or fit, from the bound upwards it must succeed
+    def sweep(n, configs, bufs):
+        for (q, lg) in configs:
+            for b in bufs:
+                cases.append("C %s %d %d 0 r:%d:%d %s" % (rng.choice("RF"), q, lg, n, rng.randrange(1, 1000), b))
+    around_s = ["S-3", "S-2", "S-1", "S", "S+1", "S+2", "S+3", "B-2", "B-1", "B", "B+1", "B+2"]
+    cfgs = [(0, 10), (2, 10), (5, 16), (5, 22), (9, 18)]
+    for n in ((1 << 16) - 1, 1 << 16, (1 << 16) + 1):
+        # every capacity from n+3 to bound+2 (bound = n + 4*(n>>14) + 28)
+        sweep(n, cfgs if thorough else cfgs[:3], [str(b) for b in range(n + 3, n + 4 * (n >> 14) + 28 + 3)])
+    for n in ((1 << 20) - 1, 1 << 20, (1 << 20) + 1, (1 << 20) + 70001):
+        if thorough:
+            sweep(n, cfgs[:3], [str(b) for b in range(n + 3, n + 4 * (n >> 14) + 28 + 3)])
+        else:
+            sweep(n, [(0, 10), (5, 16)], around_s)
+    if thorough:
+        for n in ((1 << 24) - 1, 1 << 24, (1 << 24) + 1, (1 << 24) + (1 << 16) + 1, (1 << 24) + (1 << 20) + 1, 2 << 24,
+                  (2 << 24) + (1 << 20) + 5, (3 << 24) - 1):
+            sweep(n, [(0, 10), (5, 16)], around_s)
     # short inputs: every buffer size from 0 to beyond the bound
     for l in (0, 1, 2, 3, 17):
         for q in (0, 1, 2, 5, 9, 10, 11):
@@ -315,7 +336,8 @@ def check(run):
         "thread counts up to overflow; MakeUncompressedStream (hook) at lengths around 2^16, 2^20, 2^24 (2*2^24.. in thorough); one-shot "
         "BrotliEncoderCompress (Rust and C ABI) for quality 0-11 x lgwin {10,16,18,22,24,26,30} x mode {generic,text,font} x "
         "{PRNG, text, run} inputs x lengths {0,1,2,3,17,1000, 2^14, 2*2^14, 2^16 each +-1, 2^20 +-1 (2^24 +-1 thorough)} with buffer = "
-        "advertised maximum, and for lengths 0,1,2,3,17 every buffer size 0..bound+2; streaming encoder quality 2-11 never flushed x the same "
+        "advertised maximum, for lengths 0,1,2,3,17 every buffer size 0..bound+2, and for PRNG inputs of 2^16 +-1 every capacity n+3..bound+2, "
+        "of 2^20 +-1 (and 2^24 +-1, k*2^24 + 2^16/2^20 + 1 in thorough) the capacities stored-size-3..+3 and bound-2..+2 (all of n+3..bound+2 in thorough); streaming encoder quality 2-11 never flushed x the same "
         "windows x catable/appendable/magic x size hints {0,5,2^32-1,2^35,2^64-1} exhaustively on lengths 0,1,2,3,100 and sampled on lengths "
         "around multiples of 2^14 / 2^16 / 2^20 with several feeding patterns, each traced per meta-block; distinct_nontrivial = distinct "
         "requests with a non-empty input (one-shot, stored stream), n >= 2^14 (bound), or a stream with an optional header or n >= 2^14")
